@@ -5,6 +5,7 @@ package main
 // part of the trusted base (T4).
 
 import (
+	"regexp"
 	"fmt"
 	"go/types"
 	"strings"
@@ -149,6 +150,77 @@ func (x *Exec) libModel(fr *Frame, st *State, ins ssa.Instruction, callee *ssa.F
 			r = vc.name("split", r)
 		}
 		set(r)
+		return true
+	case "(*regexp.Regexp).MatchString":
+		vc.declareFun("re_match", []Sort{SInt, SString}, SBool)
+		set(app(SBool, "re_match", args[0], args[1]))
+		return true
+	case "(*regexp.Regexp).FindStringIndex":
+		// nil when there is no match, else a fresh [2]int slice with 0 <= start <= end <= len(s)
+		vc.declareFun("re_match", []Sort{SInt, SString}, SBool)
+		vc.declareFun("re_start", []Sort{SInt, SString}, SInt)
+		vc.declareFun("re_end", []Sort{SInt, SString}, SInt)
+		m := app(SBool, "re_match", args[0], args[1])
+		a, b := app(SInt, "re_start", args[0], args[1]), app(SInt, "re_end", args[0], args[1])
+		intT := types.Typ[types.Int]
+		arrT := store(store(vc.zero(types.NewArray(intT, 0)), intLit(0), a), intLit(1), b)
+		ref := x.alloc(st, types.NewArray(intT, 0), arrT)
+		if vc.noName == 0 {
+			vc.assert(implies(m, and(le(intLit(0), a), le(a, b), le(b, app(SInt, "str.len", args[1])))))
+		}
+		set(ite(m, mkSlice(ref, intLit(0), intLit(2), intLit(2)), mkSlice(intLit(0), intLit(0), intLit(0), intLit(0))))
+		return true
+	case "(*regexp.Regexp).FindStringSubmatch":
+		// nil when there is no match, else a fresh slice of 1+NumSubexp strings
+		vc.declareFun("re_match", []Sort{SInt, SString}, SBool)
+		vc.declareFun("re_nsub", []Sort{SInt}, SInt)
+		vc.declareFun("re_groups", []Sort{SInt, SString}, arraySort(SInt, SString))
+		m := app(SBool, "re_match", args[0], args[1])
+		n := add(intLit(1), app(SInt, "re_nsub", args[0]))
+		ref := x.alloc(st, types.NewArray(stringT, 0), app(arraySort(SInt, SString), "re_groups", args[0], args[1]))
+		if vc.noName == 0 {
+			vc.assert(and(le(intLit(0), app(SInt, "re_nsub", args[0])), le(app(SInt, "re_nsub", args[0]), intLit(1000))))
+			if pat, ok := x.globalRegexPattern(argVals[0]); ok {
+				if re, err := regexp.Compile(pat); err == nil {
+					vc.assert(eq(app(SInt, "re_nsub", args[0]), intLit(int64(re.NumSubexp()))))
+				}
+			}
+		}
+		set(ite(m, mkSlice(ref, intLit(0), n, n), mkSlice(intLit(0), intLit(0), intLit(0), intLit(0))))
+		return true
+	case "(*regexp.Regexp).ReplaceAllString", "strings.Replace", "strings.ReplaceAll", "strings.ToLower", "strings.ToUpper",
+		"strings.Title", "strings.Repeat", "strings.Map":
+		// a string determined by the arguments (uninterpreted)
+		if full == "strings.Map" {
+			return false
+		}
+		var sorts []Sort
+		for _, a := range args {
+			sorts = append(sorts, a.Sort)
+		}
+		vc.declareFun("strfn_"+mangle(full), sorts, SString)
+		set(app(SString, "strfn_"+mangle(full), args...))
+		return true
+	case "strings.TrimSpace", "strings.TrimLeft", "strings.TrimRight", "strings.Trim":
+		// a substring of the argument (uninterpreted otherwise)
+		var sorts []Sort
+		for _, a := range args {
+			sorts = append(sorts, a.Sort)
+		}
+		vc.declareFun("strfn_"+mangle(full), sorts, SString)
+		r := app(SString, "strfn_"+mangle(full), args...)
+		if vc.noName == 0 {
+			r = vc.name("trim", r)
+			vc.assert(app(SBool, "str.contains", args[0], r))
+		}
+		set(r)
+		return true
+	case "strconv.Unquote":
+		vc.declareFun("strfn_unquote", []Sort{SString}, SString)
+		vc.declareFun("strfn_unquote_ok", []Sort{SString}, SBool)
+		okT := app(SBool, "strfn_unquote_ok", args[0])
+		e := x.nonNilError(st)
+		set(ite(okT, app(SString, "strfn_unquote", args[0]), strLit("")), ite(okT, Term{"(mk-iface 0 0)", SIface}, e))
 		return true
 	case "sort.Strings":
 		x.sortStrings(fr, st, args[0], ins)
@@ -319,4 +391,80 @@ func (x *Exec) sortStrings(fr *Frame, st *State, s Term, ins ssa.Instruction) {
 	vc.assert(Term{fmt.Sprintf("(forall ((i Int) (j Int)) (! (=> (and (<= 0 i) (<= i j) (< j %[2]s)) (str.<= (select %[3]s (+ %[1]s i)) (select %[3]s (+ %[1]s j)))) :pattern ((select %[3]s (+ %[1]s i)) (select %[3]s (+ %[1]s j)))))", off.S, ln.S, na.S), SBool})
 	x.frameCheckLVal(fr, st, &LVal{ptr: sArr(s), rootT: stringT, arr: true, typ: stringT}, "sort.Strings", ins.Pos())
 	x.setHeap(st, h, store(x.heap(st, h), sArr(s), na))
+}
+
+
+// globalRegexPattern: the constant pattern a package-level *regexp.Regexp variable is compiled
+// from (assigned once, in the package initialiser, by regexp.MustCompile of a constant).
+func (x *Exec) globalRegexPattern(v ssa.Value) (string, bool) {
+	u, ok := v.(*ssa.UnOp)
+	if !ok {
+		return "", false
+	}
+	g, ok := u.X.(*ssa.Global)
+	if !ok || g.Pkg == nil {
+		return "", false
+	}
+	pat, n := "", 0
+	var walk func(fn *ssa.Function)
+	walk = func(fn *ssa.Function) {
+		for _, b := range fn.Blocks {
+			for _, ins := range b.Instrs {
+				s, ok := ins.(*ssa.Store)
+				if !ok || s.Addr != ssa.Value(g) {
+					continue
+				}
+				n++
+				if fn.Name() != "init" {
+					n += 100
+				}
+				if c, ok := s.Val.(*ssa.Call); ok {
+					if f := c.Call.StaticCallee(); f != nil && f.String() == "regexp.MustCompile" {
+						if k, ok := c.Call.Args[0].(*ssa.Const); ok {
+							pat = constString(k)
+							continue
+						}
+					}
+				}
+				n += 100
+			}
+		}
+		for _, af := range fn.AnonFuncs {
+			walk(af)
+		}
+	}
+	for _, m := range g.Pkg.Members {
+		if fn, ok := m.(*ssa.Function); ok {
+			walk(fn)
+		}
+	}
+	// methods
+	for _, m := range g.Pkg.Members {
+		if tn, ok := m.(*ssa.Type); ok {
+			for _, t := range []types.Type{tn.Type(), types.NewPointer(tn.Type())} {
+				ms := g.Pkg.Prog.MethodSets.MethodSet(t)
+				for i := 0; i < ms.Len(); i++ {
+					if fn := g.Pkg.Prog.MethodValue(ms.At(i)); fn != nil && fn.Pkg == g.Pkg {
+						walk(fn)
+					}
+				}
+			}
+		}
+	}
+	return pat, n == 1
+}
+
+
+// libNoWrite: modelled library functions that write no object existing before the call (they
+// compute a value or allocate a fresh result).
+func libNoWrite(full string) bool {
+	switch full {
+	case "strings.HasPrefix", "strings.HasSuffix", "strings.Contains", "strings.TrimPrefix", "strings.TrimSuffix",
+		"(*regexp.Regexp).MatchString", "(*regexp.Regexp).FindStringIndex", "(*regexp.Regexp).FindStringSubmatch",
+		"(*regexp.Regexp).ReplaceAllString", "strings.Replace", "strings.ReplaceAll", "strings.ToLower", "strings.ToUpper",
+		"strings.Title", "strings.Repeat", "strings.TrimSpace", "strings.TrimLeft", "strings.TrimRight", "strings.Trim",
+		"strconv.Unquote":
+		return true
+	}
+	return false
 }
